@@ -150,6 +150,7 @@ fn syntax(sink: &mut Sink, o: &Opts) {
     pool.push(format!("    int f -> {}\n", long("x", 65_536)).into_bytes());
     pool.push(format!("# key: {}\n", long("v", 65_535)).into_bytes());
     pool.push(format!("    {} f -> g\n", long("T", 65_540)).into_bytes());
+    pool.extend(gen::number_lines());
     // mutants of pool lines
     let base = pool.len();
     for _ in 0..(base / 4) {
@@ -242,6 +243,18 @@ fn stream(sink: &mut Sink, o: &Opts) {
             splits.remove(i);
         }
         sink.emit(stream_event(&src, &splits));
+    }
+    // every kind of last line with every kind of terminator (none, CR at the very end, CRLF, doubled)
+    for last in [&b"not a record"[..], b"    void m() -> n", b"x.Y -> b:", b"# k: v", b"    1:2:void m(", b"\xc3"] {
+        for term in [&b"\r"[..], b"\r\n", b"\n", b"", b"\r\r", b"\n\r"] {
+            let src = [&b"a.B -> a:\n"[..], last, term].concat();
+            sink.emit(stream_event(&src, &[10]));
+        }
+    }
+    // numbers around the integer widths in every position of a method line, between well-formed lines
+    for l in gen::number_lines() {
+        let src = [&b"a.B -> a:\n"[..], &l, b"    int f -> g\nx.Y -> b:\n"].concat();
+        sink.emit(stream_event(&src, &[10, 10 + l.len()]));
     }
     // F-cut: a line cut at every byte position, followed by well-formed lines: only the cut line
     // may turn into an error
@@ -490,6 +503,19 @@ fn retrace(sink: &mut Sink, o: &Opts) {
     if !wild && o.n > 0 {
         sessions.extend(gen::crafted());
     }
+    if wild && o.n > 0 {
+        // a malformed (and a well-formed) last line with every kind of terminator, including none and a lone CR at the
+        // very end of the input
+        for last in [&b"not a record"[..], b"    void m() -> n", b"x.Y -> b:", b"# k: v", b"    1:2:void m(", b"\xc3"] {
+            for term in [&b"\r"[..], b"\r\n", b"\n", b"", b"\r\r", b"\n\r"] {
+                sessions.push([&b"a.B -> a:\n    void m() -> b\n"[..], last, term].concat());
+            }
+        }
+        // numbers around the integer widths in every position of a method line (several lines per session)
+        for chunk in gen::number_lines().chunks(8) {
+            sessions.push([&b"a.B -> a:\n"[..], &chunk.concat(), b"    void n() -> b\n"].concat());
+        }
+    }
     for k in 0..o.n {
         let m = if !wild && focus != "names" && k % 10 == 9 {
             gen::mapping_big_class(&mut rng)
@@ -674,6 +700,7 @@ pub fn parse_outcome(bytes: &[u8]) -> Value {
 }
 
 fn written_event(src: &[u8]) -> Option<(Value, Vec<u8>)> {
+    crate::disturb();
     let bytes = match crate::handles::write_cache(src) {
         Ok(b) => b,
         Err(e) => return Some((json!({"t": "written", "src": enc::bytes(src), "bytes": [], "test_ok": false, "error": e}), vec![])),
@@ -803,6 +830,32 @@ fn cache(sink: &mut Sink, o: &Opts) {
                     let mut e = bytes.clone();
                     e.extend_from_slice(b"trailing");
                     edits.push(e);
+                    // foreign buffers proper: the kind of rejection is decided by magic and version alone, whatever the
+                    // rest of the header says.  A swapped / foreign / other-version magic combined with every ordering
+                    // of the four counts; the whole file with every 32-bit word byte-swapped (what a big-endian writer
+                    // would produce); mapping TEXT handed to the cache parser
+                    let counts = [[0u32, 0, 0, 0], [1, 0, 5, 0], [0, 3, 7, 1], [300, 256, 1, 9], [1, 1, 1 << 24, 1 << 16], [u32::MAX, 0, u32::MAX, 0]];
+                    for c in counts {
+                        for kind in 0..3 {
+                            let mut e = bytes.clone();
+                            match kind {
+                                0 => e[..4].reverse(),
+                                1 => put_u32(&mut e, 0, 0x4d415050),
+                                _ => put_u32(&mut e, 4, 2),
+                            }
+                            for (k, v) in c.iter().enumerate() {
+                                put_u32(&mut e, 8 + 4 * k, *v);
+                            }
+                            edits.push(e);
+                        }
+                    }
+                    let mut e = bytes.clone();
+                    for w in e.chunks_exact_mut(4) {
+                        w.reverse();
+                    }
+                    edits.push(e);
+                    edits.push(b"com.example.Foo -> a:\n    void m() -> b\n".to_vec());
+                    edits.push(b"# compiler: R8\n# min_api: 21\na.B -> a:\n".to_vec());
                     for e in edits {
                         sink.emit(json!({"t": "parse", "what": "edit", "bytes": enc::bytes(&e), "outcome": parse_outcome(&e)}));
                     }
@@ -985,12 +1038,16 @@ fn sinks(sink: &mut Sink, o: &Opts) {
         }
         for i in 0..ncalls.min(14) {
             scripts.push(([vec![1 << 30; i], vec![rng.range(1, 3) as i64]].concat(), 1 << 30));
-            scripts.push(([vec![1 << 30; i], vec![-2]].concat(), 1 << 30));
+            // one failure at call i, of varying kind (Other, WouldBlock, TimedOut, BrokenPipe, WriteZero, UnexpectedEof);
+            // the sink would accept everything offered afterwards
+            scripts.push(([vec![1 << 30; i], vec![-2 - (i as i64 % 6)]].concat(), 1 << 30));
+            // a short write, then a failure on the very next call (the rest of that buffer), then acceptance
+            scripts.push(([vec![1 << 30; i], vec![rng.range(1, 5) as i64, -3 - (i as i64 % 2)]].concat(), 1 << 30));
             scripts.push(([vec![1 << 30; i], vec![-1]].concat(), 1 << 30));
             scripts.push(([vec![1 << 30; i], vec![0]].concat(), 1 << 30));
         }
         for _ in 0..6 {
-            let script: Vec<i64> = (0..rng.range(1, 30)).map(|_| match rng.below(12) { 0 => -1, 1 => -2, 2 => 0, _ => rng.range(1, 9) as i64 }).collect();
+            let script: Vec<i64> = (0..rng.range(1, 30)).map(|_| match rng.below(12) { 0 => -1, 1 => -2 - rng.below(6) as i64, 2 => 0, _ => rng.range(1, 9) as i64 }).collect();
             scripts.push((script, rng.range(1, 40) as i64));
         }
         for (script, rest) in scripts {
@@ -1338,6 +1395,11 @@ fn uuids(sink: &mut Sink, o: &Opts) {
     }
     inputs.push(b"A -> B:\n".to_vec());
     inputs.push(b"a  ->  b:\n".to_vec());
+    // every length around the hash function's block structure: the 16 namespace bytes are hashed in front of the
+    // data, so padding boundaries sit at lengths 39/40, 47/48, 103/104, 111/112 (not at 55/56, 119/120 alone)
+    for len in 0..=135usize {
+        inputs.push((0..len).map(|i| (i * 31 + len * 7) as u8).collect());
+    }
     for b in 0..=255u8 {
         inputs.push(vec![b]);
     }
@@ -1443,16 +1505,25 @@ fn threads(sink: &mut Sink, o: &Opts) {
     }
     for (sid, src) in sessions.iter().enumerate() {
         let uni = gen::universe(src);
-        let qs: Vec<Value> = (0..per).map(|_| gen::query(&mut rng, &uni, "all")).collect();
+        let mut qs: Vec<Value> = (0..per).map(|_| gen::query(&mut rng, &uni, "all")).collect();
+        // the targeted groups (line lookups and parameter lookups of one method back to back, both orders) follow the
+        // random part in every thread's batch, each thread starting somewhere else in them: what a worker thread
+        // remembers from its previous query must not leak into the next one
+        let nrandom = qs.len();
+        qs.extend(gen::targeted(src, 80));
         let parsed: Vec<OwnedQuery> = qs.iter().map(parse_query).collect();
         let nthreads = rng.range(2, 16);
         // randomised batches: every thread gets every query, each in its own random order, so that
         // different threads hit different classes at the same time
         let mut batches: Vec<Vec<usize>> = vec![vec![]; nthreads];
-        for b in batches.iter_mut() {
-            let mut order: Vec<usize> = (0..qs.len()).collect();
+        for (tid, b) in batches.iter_mut().enumerate() {
+            let mut order: Vec<usize> = (0..nrandom).collect();
             for i in (1..order.len()).rev() {
                 order.swap(i, rng.below(i + 1));
+            }
+            let nt = qs.len() - nrandom;
+            for j in 0..nt {
+                order.push(nrandom + (j + tid * 7) % nt);
             }
             *b = order;
         }
